@@ -33,6 +33,8 @@ func runC05(c *Ctx) {
 	c.Rule("R05c", "in-place path: every change kind alterable() accepts has a case in alterTable(); alterTable rejects anything else", 4)
 	checkCopyRows(c)
 	checkRebuildOrder(c, "R05b")
+	c.Rule("R05f", ruleTextGeneratedSkipped, 1)
+	checkGeneratedSkipped(c, "R05f")
 	checkAlterable(c, "R05c")
 }
 
@@ -551,6 +553,10 @@ func runC01(c *Ctx) {
 	checkDiffMode(c)
 	c.Rule("R01i", "normalizeIdxName derives the name of a UNIQUE-constraint index from the index parts, so every index handed to it carries its parts: no argument is a bare schema.NewIndex(name) (an index without parts normalises to the table name alone and is never found)", 2)
 	checkNormalizeArgs(c)
+	c.Rule("R01k", ruleTextFKActions, 4)
+	checkFKActionGuards(c, "R01k", []string{pSqlite, pMysql, pPostgres})
+	c.Rule("R01l", ruleTextGeneratedSkipped, 1)
+	checkGeneratedSkipped(c, "R01l")
 	c.Rule("R01j", ruleTextSQLText, 6)
 	checkSQLTextSearches(c, "R01j")
 	for _, pp := range []string{pSqlite, pMysql, pPostgres} {
